@@ -1,4 +1,6 @@
 import Sif.Proofs.C03
+import Sif.Proofs.C03Swap
+import Sif.Model.Clp.Machine
 /-
   C03 — Swaps settle exactly, within constant-product bounds, honouring minimum received.
   Property theorems only (helper lemmas live in Sif/Proofs).  Quantifiers: every pool depth,
@@ -65,6 +67,57 @@ theorem legOK_iff (t : Bool) (X x Y : Nat) (r f : Dec) (y : Nat) :
 theorem calcSwap_zero (t : Bool) (X x Y : Nat) (r f : Dec) (h : X = 0 ∨ x = 0 ∨ Y = 0) :
     calcSwapResult t X x Y r f = .ok (0, 0) := by
   unfold calcSwapResult; rw [if_pos h]
+
+/-- **Exact settlement.**  A successful swap debits the trader exactly the sent amount of the sent
+    token (`s1` = the bank after that debit), credits the trader exactly the reported output `y` of
+    the requested token out of the module account, and changes no other balance, no provider
+    record and no rewards bucket. -/
+theorem swap_settles {s s' : St} {signer sent recv : String} {amt mn y : Nat} (hs : signer ≠ clpAcct)
+    (h : swap s signer sent recv amt mn = .ok (s', y)) :
+    amt ≤ s.bal signer sent ∧ s'.lps = s.lps ∧ s'.buckets = s.buckets ∧
+    ∃ s1 : St, (∀ a d, s1.bal a d = if a = signer ∧ d = sent then s.bal a d - amt
+                        else if a = clpAcct ∧ d = sent then s.bal a d + amt else s.bal a d) ∧
+      y ≤ s1.bal clpAcct recv ∧
+      (∀ a d, s'.bal a d = if a = clpAcct ∧ d = recv then s1.bal a d - y
+                        else if a = signer ∧ d = recv then s1.bal a d + y else s1.bal a d) :=
+  (swap_bank hs h).2
+
+/-- the output is never below the trader's stated minimum -/
+theorem swap_ge_min {s s' : St} {signer sent recv : String} {amt mn y : Nat} (hs : signer ≠ clpAcct)
+    (h : swap s signer sent recv amt mn = .ok (s', y)) : mn ≤ y :=
+  (swap_bank hs h).1
+
+/-- per leg the output is strictly less than the pool's balance of the output token -/
+theorem leg_lt_balance {t : Bool} {x : Nat} {pool pool' : Pool} {r f : Dec} {y fee : Nat}
+    (h : swapOne t x pool r f = .ok (y, fee, pool')) : y < (if t then pool.nBal else pool.eBal) :=
+  swapOne_lt_balance h
+
+/-- per leg the pool moves by exactly the swapped amounts (custody, liabilities, units untouched) -/
+theorem leg_moves_pool_exactly {t : Bool} {x : Nat} {pool pool' : Pool} {r f : Dec} {y fee : Nat}
+    (h : swapOne t x pool r f = .ok (y, fee, pool')) :
+    pool'.nCust = pool.nCust ∧ pool'.eCust = pool.eCust ∧ pool'.sym = pool.sym ∧ pool'.units = pool.units ∧
+    pool'.nLiab = pool.nLiab ∧ pool'.eLiab = pool.eLiab ∧
+    (if t then pool'.eBal = pool.eBal + x ∧ pool'.nBal = pool.nBal - y ∧ y < pool.nBal
+     else pool'.nBal = pool.nBal + x ∧ pool'.eBal = pool.eBal - y ∧ y < pool.eBal) :=
+  swapOne_spec h
+
+/-- per leg (inside the handler) the constant-product bound holds on the pool depths
+    (balance + margin liabilities), with the sold token's fee rate -/
+theorem leg_le_upper {t : Bool} {x : Nat} {pool pool' : Pool} {r f : Dec} {y fee : Nat}
+    (hr : 0 ≤ r.i) (hf0 : 0 ≤ f.i) (hf1 : f.i ≤ Dec.P)
+    (h : swapOne t x pool r f = .ok (y, fee, pool')) :
+    (y : Rat) ≤ upper t ((if t then pool.eBal else pool.nBal) + (if t then pool.eLiab else pool.nLiab)) x
+      ((if t then pool.nBal else pool.eBal) + (if t then pool.nLiab else pool.eLiab)) r f :=
+  calcSwap_le_upper _ _ _ _ _ _ _ _ hr hf0 hf1 (swapOne_calc h)
+
+/-- a swap that cannot meet its conditions fails and leaves the whole state unchanged
+    (DeliverTx discards the writes of a failed message) -/
+theorem swap_fail_unchanged (s : St) (signer sent recv : String) (amt mn : Nat)
+    (h : ∀ r, swap s signer sent recv amt mn ≠ .ok r) : step s (.swap signer sent recv amt mn) = s := by
+  simp only [step]
+  split
+  · rename_i s' y hh; exact absurd hh (h _)
+  · rfl
 
 /- non-vacuity: a concrete non-trivial swap meets the hypotheses and produces an output -/
 example : calcSwapResult false 1000000 1000 2000000 ⟨10^17⟩ ⟨3 * 10^15⟩ = .ok (2191, 6) := by decide +kernel
